@@ -282,7 +282,11 @@ def _shrink_task(args):
             return dict(bucket=bucket, case=fallback, shrunk=False)
         n = max(1, (part.n + nshards - 1) // nshards)
 
+        t_end = time.time() + (6 * max_s if tier == "quick" else 5 * max_s)
+
         def cond(case):
+            if time.time() > t_end:
+                return False  # shrinking budget used up: keep what we have
             ctx = Ctx(prop, part.name, tier, known)
             ctx.collect = False
             part.judge(ctx, case)
